@@ -8,6 +8,7 @@ use std::panic::{catch_unwind, AssertUnwindSafe};
 #[path = "../../kani/src/kmer_checks.rs"]
 mod kmer_checks;
 mod cmds;
+mod indep;
 
 fn main() {
     let args: Vec<String> = std::env::args().collect();
